@@ -74,6 +74,8 @@ func gen(g *vh.Gen) {
 	a := func(mb, n int) string {
 		return fmt.Sprintf("a.%d.f%d.%d.%s.1", mb, n, 1600000000+n, hex.EncodeToString([]byte(fmt.Sprintf("fixed %d\r\n", n))))
 	}
+	g.Emit("new", "0", pool)
+	g.Emit("new", "2", pool)
 	emit(0, nil, a(0, 1))
 	emit(0, []string{a(0, 1), a(0, 2)}, a(0, 3))
 	emit(2, []string{a(0, 1), a(0, 2)}, a(0, 3))
